@@ -65,7 +65,7 @@ def source_first(flow, kind):
     return fl.hand_over(flow, kind)        # a re-iterable container is the first element itself
 
 
-def run_real(prog, flow, pairs, shape, mode="seq", kind="iter", calls=1, nsplit=0, share=False):
+def run_real(prog, flow, pairs, shape, mode="seq", kind="iter", calls=1, nsplit=0, share=False, partial=False):
     """Build and run.  Returns (built, out).  calls > 1: the same object is run repeatedly on the same
     flow (a container-based Source generates the same flow each time); all outputs must be equal."""
     import lena.core
@@ -76,16 +76,22 @@ def run_real(prog, flow, pairs, shape, mode="seq", kind="iter", calls=1, nsplit=
         return "LenaTypeError", None
     except Exception as exc:    # noqa
         return exc_name(exc), None
+    got = []
     try:
         with fl.quiet():
             outs = []
             for _ in range(calls):
                 res = seq.run(fl.hand_over(flow, kind)) if mode == "seq" else seq()
-                outs.append([fl.project(v) for v in res])
+                got = []
+                for v in res:
+                    got.append(fl.project(v))
+                outs.append(got)
             out = outs[0]
             if any(o != out for o in outs[1:]):
                 return "ok", {"calls-differ": outs}
     except Exception as exc:    # noqa
+        if partial:
+            return "ok", {"raised": exc_name(exc), "before": got}
         return "ok", "raised-at-run " + exc_name(exc)
     return "ok", out
 
@@ -119,8 +125,27 @@ def stateless(prog):
     return all(fl.reusable(st) for st in prog)
 
 
-def has_grouped_branch(prog):
-    return any(st["t"] == "split" and any(b["t"] in ("seqsum", "seqbr", "fcsum") for b in st["brs"]) for st in prog)
+def groupings(prog):
+    """Number of equivalent ways to write the grouped arguments of the program's stages (Split branches given
+    as tuples / Sequence objects / nested Sequences, the argument list of RunIf); 1: nothing to regroup."""
+    n = 1
+    for st in prog:
+        if st["t"] == "runifs":
+            n = max(n, 7)
+        if st["t"] == "split":
+            for b in st["brs"]:
+                n = max(n, {"seqbr": 5, "seqsum": 4, "fcsum": 4}.get(b["t"], 1))
+    return n
+
+
+def sole_tuple(prog, shape):
+    """A tuple argument ends up as the ONLY argument of a Sequence (the documented, if unimplemented,
+    "single tuple of elements" form): such a construction is left alone."""
+    if len(shape) == 1 and not isinstance(shape[0], list):
+        st = prog[shape[0]]
+        if st["t"] == "bad" and st["k"] in fl.TUPLE_BAD:
+            return True
+    return any(isinstance(x, list) and sole_tuple(prog, x) for x in shape)
 
 
 def variants(rec, salt, full, lite=False):
@@ -163,9 +188,9 @@ def variants(rec, salt, full, lite=False):
         if any(prog[i] == prog[j] for i in range(m) for j in range(i)):
             # the same element object may occur twice
             V += [(flat, "seq", "iter", 1, 0, True), (flat, "source", "list", 1, 0, True)]
-    if has_grouped_branch(prog):
-        # regrouping inside a Split branch (nested Sequences, tuple or sequence object)
-        V = [v + (k,) for v in V[:6] for k in range(4)]
+    if groupings(prog) > 1:
+        # regrouping inside a Split branch (nested Sequences, tuple or sequence object) and of the arguments of RunIf
+        V = [v + (k,) for v in V[:6 if full else 4] for k in range(groupings(prog))]
     else:
         V = [v + (0,) for v in V]
     return V
@@ -177,15 +202,26 @@ def replay(ctx, rec, full=True, lite=False):
     ok = True
     if rec["built"] != "ok":
         # nothing is run: every bracketing must be rejected at construction
-        V = [(sh, mode, "iter", 1, 0, False, 0) for sh in fl.shapes(len(prog)) for mode in ("seq", "source")]
+        V = [(sh, mode, "iter", 1, 0, False, 0) for sh in fl.shapes(len(prog)) for mode in ("seq", "source")
+             if not sole_tuple(prog, sh)]
     else:
         V = variants(rec, ctx.seed, full, lite)
     for shape, mode, kind, calls, nsplit, share, brnest in V:
         fl.BRANCH_NEST[0] = brnest
         # a fresh flow every time: elements may write into the contexts they are given (Count)
         flow = fl.make_flow(n, pairs, rec.get("base", 0), rec.get("vals", "nat"))
-        built, out = run_real(prog, flow, pairs, shape, mode, kind, calls, nsplit, share)
+        built, out = run_real(prog, flow, pairs, shape, mode, kind, calls, nsplit, share, partial=rec.get("failed", False))
         ctx.evaluations += 1
+        if built == "ok" and rec.get("failed"):
+            # a callable raises for one value: the values before it (what the lazy machine has delivered, or a
+            # prefix of that), then an exception of whatever class - never a quiet end of the flow
+            if not (isinstance(out, dict) and "raised" in out and out["before"] == exp_out[:len(out["before"])]):
+                ok = False
+                ctx.violation("run:%s%s:%s" % (kinds_of(prog), "" if mode == "seq" else ":" + mode,
+                                               "ended-quietly" if isinstance(out, list) else "values-before-the-failure"),
+                              {"prog": prog, "n": n, "pairs": pairs, "shape": shape, "mode": mode, "flowkind": kind,
+                               "expected_before_failure": exp_out, "observed": out})
+            continue
         if built != rec["built"]:
             ok = False
             ctx.violation("build:%s:expected=%s:got=%s" % (kinds_of(prog), rec["built"], built),
@@ -335,6 +371,8 @@ def run(ctx):
             "vals": pool.submit(ctx.export, "Flow", "Flow_c01_vals.cfg", min_records=500),
             "rerun": pool.submit(ctx.mc, "Flow", rerun_cfg, workers=1, coverage=True,
                                  must_cover=machine + ("Stop", "Abort", "Rerun")),
+            "fail": pool.submit(ctx.mc, "Flow", "Flow_c01_fail.cfg", workers=1, coverage=True,
+                                must_cover=machine + ("Fail",)),
         }
         res = {k: j.result() for k, j in jobs.items()}
 
@@ -357,7 +395,7 @@ def run(ctx):
     ctx.sample({"spec_behaviour": recs[len(recs) // 2]})
     lap("main")
     for k, rec in enumerate(res["ext"]):
-        replay(ctx, rec, full=ctx.thorough)
+        replay(ctx, rec, full=ctx.thorough, lite=(rec["n"] + (1 if rec["pairs"] else 0) + ctx.seed) % 2 == 1)
         note(rec)
     ctx.sample({"spec_behaviour_extended_vocabulary": res["ext"][len(res["ext"]) // 2]})
     lap("ext")
@@ -380,6 +418,16 @@ def run(ctx):
         nbad += rec["built"] != "ok"
     ctx.extra["rejected_at_construction_scenarios"] = nbad
     lap("bad")
+    # callables that raise for one value
+    fr = res["fail"].records
+    if len(fr) < 500 or not any(r["failed"] for r in fr):
+        raise core.MachineryError("Flow_c01_fail produced %d records" % len(fr))
+    for rec in fr:
+        replay(ctx, rec, full=ctx.thorough)
+        note(rec)
+    ctx.extra["failing_callable_scenarios"] = sum(1 for r in fr if r["failed"])
+    ctx.sample({"spec_behaviour_failing_callable": next(r for r in fr if r["failed"] and r["out"])})
+    lap("fail")
     # the same object run again
     rr = res["rerun"].records
     if len(rr) < 500:
